@@ -454,3 +454,48 @@ def json_extends_cases():
 
 
 CHECKS["json_extends"] = (json_extends_cases, check_json_extends)
+
+
+# ----------------------------------------------------------------------------- fundamental parameters of generated markets (C12 "start at the configured initial value", C18)
+def check_market_fundamentals(case):
+    import contextlib, io, random as _r
+    from pams.runners import SequentialRunner
+    m = {"class": "Market", "tickSize": 1.0}
+    m.update(case["prices"])
+    for k in ("fundamentalDrift", "fundamentalVolatility"):
+        if case.get(k) is not None:
+            m[k] = case[k]
+    if case.get("n"):
+        m["numMarkets"] = case["n"]
+    cfg = {"simulation": {"markets": ["M"], "agents": [], "sessions": [{"sessionName": 0, "iterationSteps": 2, "withOrderPlacement": False, "withOrderExecution": False, "withPrint": False}]}, "M": m}
+    r = SequentialRunner(settings=cfg, prng=_r.Random(1))
+    want_init = case["prices"].get("fundamentalPrice", case["prices"].get("marketPrice"))
+    try:
+        with contextlib.redirect_stdout(io.StringIO()):
+            r._setup()
+    except ValueError:
+        return None if want_init is None else f"{case}: valid market configuration rejected"
+    if want_init is None:
+        return f"{case}: a market without fundamentalPrice and marketPrice was accepted"
+    f = r.simulator.fundamentals
+    for mk in r.simulator.markets:
+        i = mk.market_id
+        if f.initials[i] != float(want_init) or f.prices[i][0] != float(want_init):
+            return f"{case}: fundamental path of market {mk.name} starts at {f.prices[i][0]} (initial {f.initials[i]}), configured {want_init}"
+        if f.drifts[i] != float(case.get("fundamentalDrift") or 0.0) or f.volatilities[i] != float(case.get("fundamentalVolatility") or 0.0):
+            return f"{case}: drift / volatility {f.drifts[i]} / {f.volatilities[i]} differ from the configured ones"
+        if mk.get_fundamental_price(0) != float(want_init) if mk.get_time() >= 0 else False:
+            return f"{case}: the market's own record of the fundamental price at time 0 is not the configured initial value"
+    return None
+
+
+def market_fundamentals_cases():
+    for prices in ({"marketPrice": 300.0}, {"fundamentalPrice": 310.0}, {"marketPrice": 300.0, "fundamentalPrice": 330.0}, {"fundamentalPrice": 250, "marketPrice": 300}, {}):
+        for drift in (None, 0.001):
+            for vol in (None, 0.0):
+                for n in (None, 2):
+                    yield {"prices": prices, "fundamentalDrift": drift, "fundamentalVolatility": vol, "n": n}
+
+
+for _f in ("SequentialRunner._generate_markets[fundamental-parameters]", "SequentialRunner._generate_markets[create]"):
+    CHECKS[_f] = (market_fundamentals_cases, check_market_fundamentals)
